@@ -53,7 +53,11 @@ def reference(a, Sabs, E, t):
     EE, TT = numpy.meshgrid(E, t, indexing='ij')
     ref = Sabs(EE * (1. + z), TT) * aeff(a.get('du', 1))(EE)
     if a.get('nH', 0.) > 0:
-        ref = ref * xInterstellarAbsorptionModel().transmission_factor(a['nH'])(EE)
+        if a['nH'] < 1e10:
+            # a negligible column (σ is below 1e-19 cm² everywhere in the band): exp(−nH σ) = 1 to better than 1e-9, whatever the tabulation
+            ref = ref * numpy.exp(-a['nH'] * xInterstellarAbsorptionModel()(EE))
+        else:
+            ref = ref * xInterstellarAbsorptionModel().transmission_factor(a['nH'])(EE)
     return ref
 
 
@@ -169,12 +173,15 @@ def o_history(a):
     # …and for several response sets in a row (the DU loop of xpobssim re-uses the ROI object; gray filter on the last step)
     dus = a.get('dus') or [a.get('du', 1)] * len(a['windows'])
     for step, (emin, emax) in enumerate(a['windows']):
-        irf_set = load_irf_set(IRF, dus[step], gray_filter=bool(a.get('gray_last') and step == len(a['windows']) - 1))
+        gray = bool(a.get('gray_last') and step == len(a['windows']) - 1)
+        irf_set = load_irf_set(IRF, dus[step], gray_filter=gray)
+        from ixpeobssim.irf import load_arf
+        ref_aeff = load_arf(IRF, dus[step], gray_filter=gray)          # the effective area of the requested flavour, loaded on its own
         kwargs = simdrive.sim_kwargs(simdrive.config_path('toy_point_source.py'), 'unused.fits', start_met=0., duration=a['T'], emin=emin, emax=emax)
         cs = src.create_count_spectrum(irf_set.aeff, src.sampling_time_grid(0., a['T']), **kwargs)
         Ef = numpy.linspace(emin, emax, 6001)
         from scipy.integrate import simpson
-        quad = float(simpson(a['norm'] * Ef ** (-a['index']) * irf_set.aeff(Ef), x=Ef)) * a['T']
+        quad = float(simpson(a['norm'] * Ef ** (-a['index']) * ref_aeff(Ef), x=Ef)) * a['T']
         norm = float(cs.light_curve.norm())
         if abs(norm - quad) > 1e-3 * quad:
             bad.append('step %d, window %s-%s keV: light_curve.norm() = %.6g, ∫S·Aeff over the window = %.6g' % (step, emin, emax, norm, quad))
@@ -350,6 +357,8 @@ def gen_spec(g):
         a['z'] = float(g.uniform(0.1, 1.5))
     elif r < 0.75:
         a['nH'], a['z'] = float(10 ** g.uniform(21.5, 22.7)), float(g.uniform(0.3, 1.2))
+    elif r < 0.85:
+        a['nH'] = float(10 ** g.uniform(-2., 2.5))       # a column density that is positive but negligible (a scan starting near zero): no absorption
     if g.uniform() < 0.35:
         a['emin'], a['emax'] = float(g.uniform(1.2, 3.)), float(g.uniform(6., 11.5))
     return a
@@ -365,6 +374,9 @@ def explore(chk, budget=1):
             a['kind'] = ['pl', 'pl_t', 'flare', 'cutoff_line'][i]
         if i == 1:
             a.update(nH=3e22, z=0.8)
+        if i == 2:
+            a.pop('z', None)
+            a.update(nH=float(g.choice([0.25, 2., 40., 700.])))          # positive, negligible
         obs = run_oracle(chk, 'spectrum', a, nontrivial=(a['kind'] != 'pl' or 'z' in a or 'nH' in a))
         if 'eps_time' in obs:
             eps.append((obs['eps_time'], obs['eps_energy']))
